@@ -91,7 +91,7 @@ func restartSigAt(log []detRestart, i int) string {
 var detTraceMemory bool
 
 type detStats struct {
-	txs, txOK, keeperOps, keeperOK, epochs, valUpdates, slashes, malformed, oracleOK int
+	txs, txOK, keeperOps, keeperOK, epochs, valUpdates, slashes, malformed, oracleOK, avsTaskPairs int
 }
 
 // runDetSequence executes the seeded sequence on a fresh app and returns the trace lines.
@@ -135,6 +135,13 @@ func runDetSequence(seed uint64, blocks int, restartEvery int, chainID string) (
 				StakerAddress: tie.Eth.Bytes(), OpAmount: spec.amt, LzNonce: uint64(9000 + i), TxHash: common.BytesToHash(detBytes(seed, "tie", i))})
 		})
 	}
+	// two AVSs (minute epoch) with different operator sets, hence different USD values: A = {operator0,
+	// operator2}, B = {operator1, operator2}. Every third block a task is created on each of them in the
+	// same block and signed by its operators, so that both tasks' statistics are taken in the same
+	// BeginBlock (x/avs AfterEpochEnd ranges over a Go map of the two task groups).
+	fxA, errA := setupAVSFixture(c, seed, 0, []Actor{c.Operators[0], c.Operators[2]})
+	fxB, errB := setupAVSFixture(c, seed, 1, []Actor{c.Operators[1], c.Operators[2]})
+	avsReady := errA == nil && errB == nil
 	registered := map[int]bool{}
 	funded := map[int]bool{}
 	oracleNonce := map[string]int32{}
@@ -142,6 +149,14 @@ func runDetSequence(seed uint64, blocks int, restartEvery int, chainID string) (
 	halt := ""
 	for b := 0; b < blocks && halt == ""; b++ {
 		var txLines []string
+		if avsReady && b%3 == 1 {
+			_, e1 := createTaskWithResults(c, fxA, []Actor{c.Operators[0]})
+			_, e2 := createTaskWithResults(c, fxB, []Actor{c.Operators[1], c.Operators[2]})
+			txLines = append(txLines, "k.avstasks:"+shortErr(e1)+","+shortErr(e2))
+			if e1 == nil && e2 == nil {
+				st.avsTaskPairs++
+			}
+		}
 		nOps := 1 + rng.Intn(5)
 		for k := 0; k < nOps; k++ {
 			var bz []byte
@@ -322,6 +337,11 @@ func runDetSequence(seed uint64, blocks int, restartEvery int, chainID string) (
 		case 2:
 			d = 24*time.Hour + time.Second
 			st.epochs++
+		}
+		if b == 0 && d < time.Hour {
+			// a backlog of minute epochs from the start: x/epochs catches up one epoch per block, so every
+			// later block ends a minute epoch (AVS task statistics, fee distribution)
+			d = time.Hour
 		}
 		r := c.EndAndBegin(d)
 		if r.Halt != "" {
@@ -539,6 +559,7 @@ func domDeterminism(env *Env) error {
 		env.Report.Outcomes["keeper.ops"] += st.keeperOps
 		env.Report.Outcomes["keeper.ok"] += st.keeperOK
 		env.Report.Outcomes["epoch.ends"] += st.epochs
+		env.Report.Outcomes["avs.task-pairs"] += st.avsTaskPairs
 		env.Report.Outcomes["blocks.with.valupdates"] += st.valUpdates
 		env.Report.Outcomes["slashes"] += st.slashes
 		env.Report.Outcomes["malformed.txs"] += st.malformed
